@@ -283,6 +283,7 @@ func (p Statements) PrettyPrint(ps *PrintState) *PrintState {
 	}
 	ps.IndentLevel++
 	ps.ExpressionPrecedence = LOWEST
+	ps.prev = nil // a new block: its first statement has no previous one (not the last one printed before the block).
 	var i int
 	for _, s := range p.Statements {
 		if ps.Compact {
